@@ -322,6 +322,12 @@ def scenarios(tier):
         # dispatcher + pool; its job-store poll is C13's subject)
         jobs.append((common.variant(scn, '/dm', scheduler='default_mem'),
                      1 if quick else 2, 40 if quick else 900, 1))
+        if name.startswith(('timeout', 'wait_b1_a0/S', 'retry_k1_d1/ES',
+                            'items_wait_after/SS', 'sub_retry1/ES')):
+            # timer job and result / next attempt overlapping inside their
+            # transactions
+            jobs.append((common.variant(scn, '/overlap', rp=True),
+                         1 if quick else 2, 40 if quick else 900, 1))
     return jobs
 
 
